@@ -130,6 +130,11 @@ func (r *RoundRobin) nextServer() (*server, error) {
 	gcd := r.weightGcd()
 	// Maximum weight across all enabled servers
 	maxWeight := r.maxWeight()
+	if maxWeight == 0 {
+		// checked up front: bailing out of the sweep below would leave the iterator
+		// mid-pass at level 0, where the next call selects a zero-weight server
+		return nil, errors.New("all servers have 0 weight")
+	}
 
 	for {
 		r.index = (r.index + 1) % len(r.servers)
